@@ -413,6 +413,13 @@ func (c *client) connectRecover(ctx async.Context) (_ internalConn, st status.St
 		return nil, status.Closedf("mpx client closed")
 	}
 
+	// The connection can be closed already, and onConnClosed can have run before
+	// the connection is listed here. Do not list a dead connection, it would never
+	// be removed and the client would stay connected.
+	if conn.Closed().IsSet() {
+		return nil, statusConnClosed
+	}
+
 	conns := c.conns.Load().add(conn)
 	c.conns.Store(conns)
 	verifpoint.Point("client.conns", conns.verifLive(), int64(c.options.ClientMaxConns), verifpoint.Ptr(c))
